@@ -130,9 +130,9 @@ type ToAny struct{ X Expr }
 // Paren is an explicit, semantically neutral pair of parentheses.
 type Paren struct{ X Expr }
 
-func (NumLit) Ty() *Type  { return TNum }
-func (StrLit) Ty() *Type  { return TStr }
-func (BoolLit) Ty() *Type { return TBool }
+func (NumLit) Ty() *Type   { return TNum }
+func (StrLit) Ty() *Type   { return TStr }
+func (BoolLit) Ty() *Type  { return TBool }
 func (e VarRef) Ty() *Type { return e.T }
 func (e Unary) Ty() *Type {
 	if e.Op == "!" {
@@ -177,11 +177,11 @@ type While struct {
 	Body []Stmt
 }
 type For struct {
-	Var   string // "" = no loop variable
-	VarT  *Type
-	Args  []Expr // numeric range: 1..3 expressions
-	Over  Expr   // array/string/map range (Args empty)
-	Body  []Stmt
+	Var  string // "" = no loop variable
+	VarT *Type
+	Args []Expr // numeric range: 1..3 expressions
+	Over Expr   // array/string/map range (Args empty)
+	Body []Stmt
 }
 type Break struct{}
 type Return struct{ Val Expr }
